@@ -64,7 +64,11 @@ where
 
         let processed_message = match group.process_message(&self.provider, protocol_message) {
             Ok(processed_message) => processed_message,
-            Err(ProcessMessageError::ValidationError(ValidationError::WrongEpoch)) => {
+            // Only a commit competes for an epoch (MIP-03). A proposal or application message from
+            // another epoch is simply unprocessable and must never trigger a rollback.
+            Err(ProcessMessageError::ValidationError(ValidationError::WrongEpoch))
+                if content_type == ContentType::Commit =>
+            {
                 return Err(Error::ProcessMessageWrongEpoch(msg_epoch));
             }
             Err(ProcessMessageError::ValidationError(ValidationError::CannotDecryptOwnMessage)) => {
